@@ -559,7 +559,8 @@ class Sim:
         name = self.rng.choice(['set_title', 'set_app_id']) if ob.type != 'wl_shell_surface' else 'set_title'
         if self.msg_desc(ob.type, name) is None:
             return False
-        self.emit(True, ob, name, [{'k': 's', 'v': self.rng.choice(['', 'a.', 'org.gnome.gedit', 'Title, with (stuff)', '.', 'x', 'A', 'a', 'b', 'B', 'b', 'c', 'C', 'd', 'all', 'aa'])}])
+        pool = self.o.get('app_pool') or ['', 'a.', 'org.gnome.gedit', 'Title, with (stuff)', '.', 'x', 'A', 'a', 'b', 'B', 'b', 'c', 'C', 'd', 'all', 'aa']
+        self.emit(True, ob, name, [{'k': 's', 'v': self.rng.choice(pool)}])
         return True
 
     def act_client_destroy(self):
